@@ -24,6 +24,9 @@ func (p *Pubrel) String() string {
 // NewPubrelPacket returns a Pubrel instance by the given FixHeader and io.Reader.
 func NewPubrelPacket(fh *FixHeader, r io.Reader) (*Pubrel, error) {
 	p := &Pubrel{FixHeader: fh}
+	if fh.Flags != FlagPubrel { //[MQTT-3.6.1-1]
+		return nil, codes.ErrMalformed
+	}
 	err := p.Unpack(r)
 	if err != nil {
 		return nil, err
